@@ -21,3 +21,32 @@ def install_matplotlib_stubs():
         for n in names:
             setattr(m, n, type(n, (), {}))
         setattr(mpl, sub, m)
+
+
+class AnyMock:
+    """stands in for pyplot / an Axes / a widget: every attribute is a callable that returns another AnyMock;
+    the few calls whose results are unpacked return sequences of the right length"""
+
+    def __getattr__(self, name):
+        if name.startswith("__"):
+            raise AttributeError(name)
+        if name == "subplots":
+            return lambda *a, **k: (AnyMock(), AnyMock())
+        if name == "plot":
+            return lambda *a, **k: [AnyMock()]
+        if name == "get_cmap":
+            return lambda *a, **k: (lambda p: (0.0, 0.0, 0.0, 1.0))
+        return AnyMock()
+
+    def __call__(self, *a, **k):
+        return AnyMock()
+
+
+def matplotlib_renderer():
+    """the library's own MatplotlibRenderer running against mock pyplot objects (no window, show() returns at once)"""
+    install_matplotlib_stubs()
+    from bloqade.shuttle.visualizer.renderers import matplotlib as R
+    R.plt = AnyMock()
+    R.Button = lambda *a, **k: AnyMock()
+    R.MatplotlibRenderer.show = lambda self: None
+    return R.MatplotlibRenderer(ax=AnyMock())
